@@ -28,7 +28,8 @@ def xml_cal(cal, od=False):
     if not (od and cal["order"] == 0):
         a += f' order="{cal["order"]}"'
     if not (od and not cal["extrap"]):
-        a += f' extrapolate="{"true" if cal["extrap"] else "false"}"'
+        # xs:boolean spells false as "false" or "0": first-order splines use the digit
+        a += f' extrapolate="{"true" if cal["extrap"] else ("0" if cal["order"] == 1 else "false")}"'
     return f"<SplineCalibrator{a}>" + "".join(
         f'<SplinePoint raw="{fnum(p["x"])}" calibrated="{fnum(p["y"])}"/>' for p in cal["pts"]) + "</SplineCalibrator>"
 
@@ -67,6 +68,8 @@ def xml_numeric_encoding(enc, calset=None, od=False, skip_default=False):
         return f"<IntegerDataEncoding {a}>{inner}</IntegerDataEncoding>"
     a = f'sizeInBits="{enc["w"]}"'
     fmt = {"ieee": "IEEE754", "mil1750a": "MILSTD_1750A"}[enc.get("fmt", "ieee")]
+    if enc.get("spelling") == "legacy":          # the tolerated older spellings of the same two formats
+        fmt = {"IEEE754": "IEEE-754", "MILSTD_1750A": "MIL-1750A"}[fmt]
     if not (od and fmt == "IEEE754"):
         a += f' encoding="{fmt}"'
     if not (od and enc.get("order", "msb") == "msb"):
@@ -97,13 +100,16 @@ def xml_type(name, pt, od=False):
         if unit:
             a += f' units="{unit}"'
         d = pt["cal"]["default"]
-        if d["k"] == "poly":
+        # scale / offset express offset + scale * raw only (one term of exponent 1, at most one of exponent 0); any other default
+        # calibrator (another polynomial, a spline) is the DefaultCalibrator of the data encoding inside <Encoding>
+        linear = d["k"] == "poly" and sorted(t["e"] for t in d["terms"]) in ([1], [0, 1])
+        if linear:
             for t in d["terms"]:
                 if t["e"] == 1 and not (pt.get("scale_implicit") and fr(t["c"]) == 1):
                     a += f' scale="{fnum(t["c"])}"'
                 if t["e"] == 0:
                     a += f' offset="{fnum(t["c"])}"'
-        s = f'<{tag} name="{name}"><Encoding{a}>' + xml_numeric_encoding(pt["enc"], pt["cal"], od, skip_default=True) + "</Encoding>"
+        s = f'<{tag} name="{name}"><Encoding{a}>' + xml_numeric_encoding(pt["enc"], pt["cal"], od, skip_default=linear) + "</Encoding>"
         if pt.get("epoch") or pt.get("offsetFrom"):
             s += "<ReferenceTime>"
             if pt.get("offsetFrom"):
@@ -115,6 +121,8 @@ def xml_type(name, pt, od=False):
     s = f'<{tag} name="{name}">'
     if unit:
         s += f"<UnitSet><Unit>{unit}</Unit></UnitSet>"
+    elif not od:
+        s += "<UnitSet/>"          # real documents carry an empty UnitSet on every type without a unit (omitted with the other defaults)
     s += xml_numeric_encoding(pt["enc"], pt["cal"], od)
     if pt["kind"] == "enum":
         s += "<EnumerationList>" + "".join(
@@ -143,6 +151,8 @@ def obj_numeric_encoding(enc, calset):
         return encodings.IntegerDataEncoding(enc["w"], enc["enc"], byte_order=ORD[enc.get("order", "msb")],
                                              default_calibrator=default, context_calibrators=ctx)
     fmt = {"ieee": "IEEE754", "mil1750a": "MILSTD_1750A"}[enc.get("fmt", "ieee")]
+    if enc.get("spelling") == "legacy":
+        fmt = {"IEEE754": "IEEE-754", "MILSTD_1750A": "MIL-1750A"}[fmt]
     return encodings.FloatDataEncoding(enc["w"], encoding=fmt, byte_order=ORD[enc.get("order", "msb")],
                                        default_calibrator=default, context_calibrators=ctx)
 
